@@ -40,6 +40,8 @@ def rand_net(rnd, nmin=2, nmax=8, dens=None, kind=None):
 
 
 def mkproc(p):
+    if p['cls'] == 'Monitor': return Monitor()
+    if p['cls'] == 'NetworkStatistics': return NetworkStatistics()
     if p['cls'] == 'Script':
         return ScriptProc(p['spec'], p.get('name'))
     if p['cls'] == 'SEIR':
@@ -66,6 +68,7 @@ def build_case(spec):
         ps = [mkproc(p) for p in procs]
         if spec.get('seq', 'bare') == 'bare' and len(ps) == 1: return ps[0]
         if spec['seq'] == 'dict': return ProcessSequence({(p.get('name') or f'p{i}'): q for i, (p, q) in enumerate(zip(procs, ps))})
+        if spec['seq'] == 'nested' and len(ps) >= 2: return ProcessSequence([ProcessSequence(ps[:1]), ProcessSequence(ps[1:])])
         return ProcessSequence(ps)
     params = {}
     for p in procs: params.update(p.get('params', {}))
@@ -142,7 +145,7 @@ def oracle_loci(d, ex, cur, t, p, name, e):
     return ('loci', r) if r else None
 
 
-ORACLES = dict(clock=oracle_clock, member=oracle_member, loci=oracle_loci)
+ORACLES = dict(clock=oracle_clock, member=oracle_member, loci=oracle_loci, monitor=lambda *a: None)
 
 
 # ---------------------------------------------------------------------------------------------------------------
@@ -479,3 +482,71 @@ def gen_rates(rnd, dyn='sto'):
     ps = sorted({p for (_, p, _) in perel + fixed if 0 < p < 1})
     return dict(procs=[dict(cls='Script', name=None, spec=sp)], seq='bare', dyn=dyn, nodes=nodes, edges=edges,
                 maxT=rnd.choice([2.0, 4.0, 8.0]), seed=rnd.random(), specials=ps, pspecial=0.25, oracles=['clock', 'member', 'loci'])
+
+
+def gen_monitored(rnd, dyn=None):
+    """C12: a shipped model observed by a Monitor (and NetworkStatistics) in a sequence"""
+    base = gen_shipped(rnd, dyn=dyn, oracles=('clock', 'member', 'loci'))
+    delta = rnd.choice([0.25, 0.5, 1.0, 1.5, 2.0, 0.75, 3.0])
+    procs = base['procs'] + [dict(cls='Monitor', name=None, params={Monitor.DELTA: delta})]
+    if rnd.random() < 0.5: procs.append(dict(cls='NetworkStatistics', name=None, params={}))
+    if rnd.random() < 0.3: procs = [procs[1], procs[0]] + procs[2:]
+    base.update(procs=procs, seq=rnd.choice(['list', 'list', 'nested']), oracles=['clock', 'member', 'loci', 'monitor'])
+    return base
+
+
+def final_monitor(d, ex, res, md, spec):
+    """C12: observation times 0, d, 2d, ... up to the end; one series per locus, as long as the list of times; each value is the
+    locus' size after every strictly earlier event and before every strictly later one.  NetworkStatistics against a BFS."""
+    from epydemic import NetworkStatistics as NS
+    if Monitor.OBSERVATIONS in res:
+        mon = [p for p in ex.leaves if isinstance(p, Monitor)][0]
+        delta = None
+        obs = res[Monitor.OBSERVATIONS]
+        if len(obs) >= 2: delta = obs[1] - obs[0]
+        T = md[Dynamics.TIME]
+        bound = T if spec['dyn'] == 'sto' else T - 1.0
+        dlt = spec['params'][Monitor.DELTA]
+        want = []; t = 0.0
+        while t <= bound and len(want) < 10000:
+            want.append(t); t = t + dlt
+        if obs != want: return f"observations at {obs[:8]}{'...' if len(obs) > 8 else ''} ({len(obs)}), expected every {dlt} from 0 to {bound}: {want[:8]} ({len(want)})"
+        names = list(d.loci().keys())
+        hist = spec.get('_sizes', [])
+        for li, n in enumerate(names):
+            ser = res.get(Monitor.timeSeriesForLocus(n))
+            if ser is None: return f"no time series for locus {n}"
+            if len(ser) != len(obs): return f"series for {n} has {len(ser)} entries, {len(obs)} observations"
+            for k, o in enumerate(obs):
+                # states the observation may legitimately see: after all events strictly before o, up to after all events at o
+                cands = [hist[0][1][li]] if hist else []
+                last_before = hist[0][1][li] if hist else None
+                for (tt, sz) in hist[1:]:
+                    if tt < o: last_before = sz[li]
+                cands = [last_before] + [sz[li] for (tt, sz) in hist[1:] if tt == o]
+                if ser[k] not in cands:
+                    return f"locus {n} at observation time {o}: recorded {ser[k]}, size after the earlier events was {last_before}"
+    if NS.N in res:
+        g = d.network()
+        n = g.order(); degs = [dd for (_, dd) in g.degree()]
+        seen = set(); comps = []
+        for v in g.nodes():
+            if v in seen: continue
+            stack = [v]; seen.add(v); c = 1
+            while stack:
+                x = stack.pop()
+                for y in g.adj[x]:
+                    if y not in seen: seen.add(y); stack.append(y); c += 1
+            comps.append(c)
+        comps.sort(reverse=True)
+        want = {NS.N: n, NS.M: g.number_of_edges(), NS.KMEAN: sum(degs) / n, NS.KMAX: max(degs), NS.COMPONENTS: len(comps),
+                NS.LCC: comps[0] if comps else 0, NS.SLCC: comps[1] if len(comps) > 1 else 0}
+        for k, v in want.items():
+            if res[k] != v: return f"NetworkStatistics reports {k.split('.')[-1]} = {res[k]}, computed from the final network: {v}"
+        hist_ = res[NS.KDIST]
+        if [hist_[i] if i < len(hist_) else 0 for i in range(max(degs) + 1)] != [degs.count(i) for i in range(max(degs) + 1)] or any(hist_[max(degs) + 1:]):
+            return f"degree histogram {list(hist_)} for degrees {sorted(degs)}"
+    return None
+
+
+FINALS['monitor'] = final_monitor
